@@ -353,7 +353,7 @@ func (b *buffer) ReadBytes(delim byte) (line []byte, err error) {
 	}
 	found := false
 	if b.off < b.memBuf.len {
-		i := int64(bytes.IndexByte(b.memBuf.buf[b.off:], delim))
+		i := int64(bytes.IndexByte(b.memBuf.buf[b.off:b.memBuf.len], delim))
 		end := b.off + i + 1
 		if i < 0 {
 			end = b.memBuf.len
